@@ -37,7 +37,7 @@ def run(c):
     issue_cfg = {"max_cache": 1}
     # ---- 1. exhaustive
     pc.mc_run(c, "C06", "mc_A", u="A", depth=depth, exp_choices=exps, report_set=(1,), horizon=9)
-    pc.mc_run(c, "C06", "mc_issue", u="A", cfg=issue_cfg, depth=depth + 2, exp_choices=(6,), report_set=(1, 2, 3), horizon=6, max_adv=2,
+    pc.mc_run(c, "C06", "mc_issue", u="A", cfg=issue_cfg, depth=depth + 1 if not thorough else depth + 2, exp_choices=(6,), report_set=(1, 2, 3), horizon=6, max_adv=2,
               invariants=["IssueMapBound", "IssueFifoBound", "CacheBound", "NoWorkerPanic", "ActiveInCache", "IrrelevantReportNoChange"])
     pc.mc_run(c, "C06", "oracle_expiry", u="A", depth=5, exp_choices=(1, 3), report_set=(), horizon=9, fix_expiry=False,
               expect=["LiveAtHandout"], oracle=True)
@@ -48,7 +48,8 @@ def run(c):
     # ---- 2. generation -> replay
     nrep, steps, nontriv, outcomes, spec_outcomes = 0, 0, set(), {}, {}
     gens = [
-        dict(name="gen_timing", depth=depth - 1 if not thorough else depth, exp_choices=exps, report_set=(1,), horizon=9),
+        dict(name="gen_timing", depth=depth, exp_choices=exps, report_set=(), horizon=9),
+        dict(name="gen_timing_issue", depth=depth - 1, exp_choices=(1, 3), report_set=(1,), horizon=9),
         dict(name="gen_late0", depth=depth - 1, exp_choices=(1, 3), report_set=(), horizon=9, late=0),
         dict(name="gen_issue", cfg=issue_cfg, depth=depth + 1, exp_choices=(6,), report_set=(1, 2, 3), horizon=6, max_adv=2),
     ]
@@ -64,7 +65,7 @@ def run(c):
         for k, v in st["spec_outcomes"].items():
             spec_outcomes[k] = spec_outcomes.get(k, 0) + v
     # vacuity is judged on the GENERATOR side (outcome classes the spec predicts), never on what the code under test did
-    for need in ("send:path", "send:none", "tick:ok", "tick:failed", "tick:none", "tick:expiry", "tick:idle", "report:accepted", "report:dup", "ingest:handled", "adv:"):
+    for need in ("send:path", "send:none", "tick:ok", "tick:failed", "tick:expiry", "tick:idle", "report:accepted", "report:dup", "ingest:handled", "adv:"):
         if not spec_outcomes.get(need):
             c.fail_tool("vacuous generation: outcome class %s never predicted by the spec in the replayed histories" % need)
     c.cov["replayed"] = nrep
